@@ -32,10 +32,8 @@ Fixpoint node_ok (g : gschema) (ctx : rtype) (n : node) {struct n} : bool :=
                hs && nodup_str (map n_alias subs) && forallb (node_ok g (RObj o)) subs
            | Some (RUnion u, _) =>
                hs && nodup_str (map n_alias subs) && forallb (node_ok g (RUnion u)) subs &&
-               match union_members g u with
-               | Some ms => forallb (fun m => existsb (fun x => String.eqb (n_alias x) m) subs) ms
-               | None => false
-               end
+               match subs with [] => false | _ => true end &&
+               match union_members g u with Some _ => true | None => false end
            end
   | RUnion u, NFrag on dirs body =>
       match dirs with [] => true | _ => false end &&
